@@ -170,6 +170,9 @@ def write_evidence(prop, mod, tier, verif_seed, agg, wall, n_viol, extra=None):
         'mirror_sha256': mirror.digest(),
         'oracle_verdicts_total': agg['vcount'],
         'exhaustive': False,
+        'new_distinct_per_nontrivial_run_in_last_decile': agg.get('growth_last_decile'),
+        'clock': 'virtual time; the code under test registers no timers or deadlines, so simulated time stays 0 '
+                 'and clock-skew faults do not apply',
     }
     zero = [p for p in getattr(mod, 'EXPECTED_PROBES', ()) if not agg['probes'].get(p)]
     if zero:
@@ -286,18 +289,20 @@ def main(argv=None):
 
     agg = _new_agg()
     harness_fail = None
+    parts = []          # (start index, batch aggregate), merged in index order afterwards
     if jobs == 1:
         for t in tasks:
-            _merge(agg, _batch(t))
+            parts.append((t[2], _batch(t)))
     else:
         ctx = multiprocessing.get_context('fork')
         ex = cf.ProcessPoolExecutor(max_workers=jobs, mp_context=ctx)
         try:
             futs = [ex.submit(_batch, t) for t in tasks]
+            fut_start = {f: t[2] for f, t in zip(futs, tasks)}
             wall_cap = getattr(mod, 'WALL_CAP', {}).get(tier, 3600) if hasattr(mod, 'WALL_CAP') else 3600
             try:
                 for fut in cf.as_completed(futs, timeout=wall_cap):
-                    _merge(agg, fut.result())
+                    parts.append((fut_start[fut], fut.result()))
             except cf.TimeoutError:
                 harness_fail = 'wall cap %ds exceeded' % wall_cap
             except cf.process.BrokenProcessPool as bex:
@@ -311,6 +316,19 @@ def main(argv=None):
                         p.kill()
                     except Exception:
                         pass
+
+    # merge in seed-index order; measure how fast new (plan, schedule) pairs still appear
+    parts.sort(key=lambda x: x[0])
+    growth = None
+    mark = int(len(parts) * 0.9)
+    d_at_mark = r_at_mark = 0
+    for i, (_st, part) in enumerate(parts):
+        if i == mark:
+            d_at_mark, r_at_mark = len(agg['distinct']), agg['nontrivial_runs']
+        _merge(agg, part)
+    if parts and agg['nontrivial_runs'] > r_at_mark:
+        growth = round((len(agg['distinct']) - d_at_mark) / float(agg['nontrivial_runs'] - r_at_mark), 4)
+    agg['growth_last_decile'] = growth
 
     # -- triage ---------------------------------------------------------------
     known = findings.load()
